@@ -2,7 +2,7 @@
 from .. import bb, chain as K, gen_chain as GC, gen_history as GH, gen_scripts as GS
 
 NAMESPACE = "Rbp.Props.C07"
-REQUIRED = ["fold_eq_spec", "key_injective", "exit0_dump_is_fold_over_delivered"]
+REQUIRED = ["fold_eq_spec", "key_injective", "exit0_dump_is_fold_over_delivered", "rows_bounded_by_creations"]
 LEAN_FILES = ["Rbp/Model/Utxo.lean", "Rbp/Model/Callbacks.lean", "Rbp/Model/Run.lean"]
 RULE = ("black-box unspentcsvdump on generated spend histories vs (i) the whole-program Lean model and (ii) a declarative python oracle (`created with an address, and no later operation mentions the outpoint`, addresses taken from the "
         "implementation's own script verdicts): random histories with fan-in/fan-out, intra-block spends, several inputs spending one tx, unknown outpoints, address-less / zero-value outputs, identical coinbases (duplicate txids), "
